@@ -26,10 +26,17 @@ def is_placeholder_case(c):
     return isinstance(c, (FullCaseCitation, ShortCaseCitation)) and "page" in c.groups and c.groups["page"] is None
 
 
+def placeholder_page(c):
+    """Placeholder page of a case citation, judged from the citation's own text: a page that is missing
+    or consists of underscores only (independent of how the library normalises the group)."""
+    page = c.groups.get("page")
+    return page is None or re.fullmatch(r"_+", page) is not None
+
+
 def full_key(c):
     """Independent identity of the document a full citation cites."""
     if isinstance(c, FullCaseCitation):
-        if c.groups.get("page") is None:
+        if placeholder_page(c):
             return ("placeholder", id(c))
         return ("case", c.groups.get("volume"), c.groups.get("page"), norm_reporter(c))
     eds = sorted((e.short_name, e.reporter.short_name, str(e.start), str(e.end))
@@ -87,9 +94,8 @@ def id_admissible(idc, antecedent_full, max_pages):
     """May an id. citation follow a citation resolved to the resource whose
     first (full) citation is antecedent_full?"""
     page = antecedent_full.groups.get("page") if "page" in antecedent_full.groups else "<absent>"
-    if isinstance(antecedent_full, FullCaseCitation) and page is None:
-        return False
-    if type(antecedent_full).__name__ == "FullJournalCitation" and page is None:
+    if type(antecedent_full).__name__ in ("FullCaseCitation", "FullJournalCitation") and (
+            page is None or re.fullmatch(r"_+", str(page))):
         return False
     pin = idc.metadata.pin_cite
     if not pin:
